@@ -2,8 +2,11 @@ package c18
 
 import (
 	"bytes"
+	"encoding/json"
 	"fmt"
 	"os"
+	osexec "os/exec"
+	"path/filepath"
 	"sort"
 	"strings"
 	"testing"
@@ -39,6 +42,7 @@ type Record struct {
 	MapDflt    int       `json:"map_default"`
 	PoolDflt   int       `json:"pool_default"`
 	SharedConf int       `json:"shared_conf,omitempty"` // > 0: that many small packages are created from ONE *gogen.Config whose Importer and Fset are nil (each package then gets gogen's own default importer, which runs the listing command)
+	Cold       bool      `json:"cold,omitempty"`        // race build: the record is also executed in a fresh OS process whose very first builds are the concurrent ones (lazily initialised package-level state is still untouched)
 	ConcFirst  bool      `json:"conc_first,omitempty"`  // the concurrent run comes before the sequential baseline (so that first-use writes happen while packages build concurrently)
 }
 
@@ -84,6 +88,27 @@ func TestMain(m *testing.M) {
 		singletonsAtStart = fprint.Snapshot()
 	}
 	var err error
+	if cold := os.Getenv("VERIF_C18_COLD"); cold != "" {
+		// cold child: no corpus dry run, no baseline first - the first builds of this process
+		// are the concurrent ones of the record
+		env, err = run.NewEnv(false)
+		if err != nil {
+			fmt.Fprintln(os.Stderr, "c18 cold:", err)
+			os.Exit(2)
+		}
+		b, _ := os.ReadFile(cold)
+		r := &Record{}
+		if json.Unmarshal(b, r) != nil {
+			os.Exit(2)
+		}
+		r.ConcFirst, r.Cold = true, false
+		out := exec1(r)
+		for _, v := range out.Violations {
+			d, _ := json.Marshal([2]string{v.Key, v.Detail})
+			fmt.Printf("COLD-VIOLATION %s\n", d)
+		}
+		os.Exit(0)
+	}
 	env, err = run.NewEnv(true)
 	if err != nil {
 		fmt.Fprintln(os.Stderr, "c18:", err)
@@ -149,6 +174,7 @@ func gen(rt *rapid.T) any {
 	r.MapDflt = rapid.IntRange(0, 5).Draw(rt, "mapdflt")
 	r.PoolDflt = rapid.IntRange(-1, 1).Draw(rt, "pooldflt")
 	r.ConcFirst = rapid.IntRange(0, 2).Draw(rt, "conc_first") == 0
+	r.Cold = raceBuild && rapid.IntRange(0, 2).Draw(rt, "cold") == 0
 	return r
 }
 
@@ -297,11 +323,81 @@ func execSharedConf(r *Record) *core.Outcome {
 	return out
 }
 
+// coldChild executes the record in a fresh OS process (this test binary again) in which
+// nothing has been built before, under the race detector, and reports what it found.
+func coldChild(r *Record, out *core.Outcome) {
+	for _, t := range r.Tasks {
+		if t.Prog == nil || t.Prog.Corpus != "" {
+			return // corpus packages need the admission dry run, which warms everything up
+		}
+	}
+	dir, err := os.MkdirTemp(os.Getenv("VERIF_SCRATCH"), "c18cold")
+	if err != nil {
+		return
+	}
+	defer os.RemoveAll(dir)
+	b, _ := json.Marshal(r)
+	rf := filepath.Join(dir, "record.json")
+	os.WriteFile(rf, b, 0o644)
+	cmd := osexec.Command(os.Args[0], "-test.run=^$")
+	cmd.Env = append(os.Environ(), "VERIF_C18_COLD="+rf, "GORACE=log_path="+filepath.Join(dir, "race")+" halt_on_error=0 history_size=5")
+	var so bytes.Buffer
+	cmd.Stdout = &so
+	var se bytes.Buffer
+	cmd.Stderr = &se
+	// (exit status 66 is the race detector's way of saying that it reported something)
+	if err := cmd.Run(); err != nil && cmd.ProcessState.ExitCode() != 66 {
+		if dbg := os.Getenv("VERIF_COLD_DEBUG"); dbg != "" {
+			os.WriteFile(dbg, append([]byte(err.Error()+"\n"+so.String()+"\n"), se.Bytes()...), 0o644)
+		}
+		out.Observe("cold_child_failed")
+		return
+	}
+	out.Probe("cold_process_runs")
+	for _, l := range strings.Split(so.String(), "\n") {
+		if strings.HasPrefix(l, "COLD-VIOLATION ") {
+			var kv [2]string
+			if json.Unmarshal([]byte(l[len("COLD-VIOLATION "):]), &kv) == nil {
+				out.Violate(P, kv[0], "in a fresh process whose first builds are the concurrent ones: "+kv[1])
+				return
+			}
+		}
+	}
+	logs, _ := filepath.Glob(filepath.Join(dir, "race*"))
+	for _, lf := range logs {
+		rep, _ := os.ReadFile(lf)
+		if !bytes.Contains(rep, []byte("DATA RACE")) {
+			continue
+		}
+		key, harnessOnly := core.RaceKey(string(rep))
+		if harnessOnly {
+			out.Observe("cold_child_harness_race")
+			continue
+		}
+		if len(rep) > 6000 {
+			rep = rep[:6000]
+		}
+		out.Violate(P, key, "in a fresh process whose first builds are the concurrent ones:\n"+string(rep))
+		return
+	}
+}
+
 func exec1(rec any) *core.Outcome {
 	r := rec.(*Record)
 	if r.SharedConf > 0 {
 		return execSharedConf(r)
 	}
+	if r.Cold && raceBuild && os.Getenv("VERIF_C18_COLD") == "" {
+		out := exec1Warm(r)
+		if len(out.Violations) == 0 {
+			coldChild(r, out)
+		}
+		return out
+	}
+	return exec1Warm(r)
+}
+
+func exec1Warm(r *Record) *core.Outcome {
 	out := &core.Outcome{}
 	tp := &seams.Tapes{Default: r.MapDflt, PoolDflt: r.PoolDflt}
 	seams.Install(tp)
